@@ -36,9 +36,11 @@ use discret::verif_hooks::database::mutation_query::MutationQuery;
 use discret::verif_hooks::database::query_language::data_model_parser::DataModel;
 use discret::verif_hooks::database::query_language::deletion_parser::DeletionParser;
 use discret::verif_hooks::database::query_language::mutation_parser::MutationParser;
-use discret::verif_hooks::database::room::Room;
+use discret::verif_hooks::database::room::{user_from_json, Room};
 use discret::verif_hooks::database::sqlite_database::{prepare_connection, Writeable};
-use discret::verif_hooks::database::system_entities::SYSTEM_DATA_MODEL;
+use discret::verif_hooks::database::system_entities::{
+    RIGHT_ENTITY_SHORT, RIGHT_MUTATE_ALL_SHORT, RIGHT_MUTATE_SELF_SHORT, SYSTEM_DATA_MODEL,
+};
 use discret::verif_hooks::database::Error as DbError;
 use discret::verif_hooks::security::{base64_encode, Uid};
 use crate::inst::Inst;
@@ -554,7 +556,19 @@ impl Bench {
         };
         let case = self.case_id;
         let keys = &mut self.keys;
-        let rm = match build_room_mutation(kv, &self.rooms, &self.groups, &mut |k| key_of(keys, case, k)) {
+        let handles = &self.handles;
+        let admin_entries = &self.admin_entries;
+        let other = |x: &str| -> Option<Uid> {
+            if let Some(h) = x.strip_prefix('h') {
+                return handles.get(&h.parse::<u64>().ok()?).map(|(id, _)| *id);
+            }
+            if let Some(a) = x.strip_prefix('a') {
+                let (r2, i) = a.split_once('.')?;
+                return admin_entries.get(&r2.parse::<u64>().ok()?)?.get(i.parse::<usize>().ok()?).copied();
+            }
+            None
+        };
+        let rm = match build_room_mutation_with(kv, &self.rooms, &self.groups, &mut |k| key_of(keys, case, k), &other) {
             Some(rm) => rm,
             None => return "bad-op".into(),
         };
@@ -566,7 +580,7 @@ impl Bench {
                 }
                 if let Some(subs) = ent.sub_nodes.get("authorisations") {
                     for (i, g) in rm.mentioned.iter().enumerate() {
-                        if rm.created.contains(g) {
+                        if rm.created.contains(g) && !kv.contains_key(&format!("g{}.id", g)) {
                             self.groups.insert((rm.r, *g), subs[i].node_to_mutate.id);
                         }
                     }
@@ -652,6 +666,77 @@ impl Bench {
         }
         out.sort();
         format!("P[{}]", out.join(","))
+    }
+
+    /// the STORED definition of a room (`RoomNode::read`): the room row, its admin entries and its groups with their
+    /// entries, each with the key that signed it — `S <author>:<mdate> A[..] G[..]`, lists sorted
+    pub fn op_rstored(&mut self, kv: &Kv) -> String {
+        let r = match get_u(kv, "r") {
+            Some(r) => r,
+            None => return "bad-op".into(),
+        };
+        let id = match self.rooms.get(&r) {
+            Some(id) => *id,
+            None => return "none".into(),
+        };
+        let node = match RoomNode::read(&self.conn, &id) {
+            Ok(Some(n)) => n,
+            _ => return "none".into(),
+        };
+        let users = |b: &mut Bench, l: &[discret::verif_hooks::database::room_node::UserNode]| -> String {
+            let mut v: Vec<String> = l
+                .iter()
+                .map(|u| {
+                    let (k, en) = match u.node._json.as_deref().map(|j| user_from_json(j, u.node.mdate)) {
+                        Some(Ok(x)) => (b.key_index(&x.verifying_key), x.enabled),
+                        _ => ("!".to_string(), false),
+                    };
+                    format!("{}:{}:{}:{}", k, u.node.mdate, en as u8, b.key_index(&u.node.verifying_key))
+                })
+                .collect();
+            v.sort();
+            v.join(",")
+        };
+        let admins = users(self, &node.admin_nodes);
+        let mut groups: Vec<String> = vec![];
+        for a in &node.auth_nodes {
+            let name = self
+                .groups
+                .iter()
+                .find(|(_, v)| **v == a.node.id)
+                .map(|((r2, g2), _)| format!("{}.{}", r2, g2))
+                .unwrap_or("?".into());
+            let mut rights: Vec<String> = a
+                .right_nodes
+                .iter()
+                .map(|x| {
+                    // the stored JSON (short field names of sys.EntityRight); own-rows shown as `EntityRight::new` reads it
+                    let body = match x.node._json.as_deref().and_then(|j| serde_json::from_str::<serde_json::Value>(j).ok()) {
+                        Some(v) => {
+                            let ent = v.get(RIGHT_ENTITY_SHORT).and_then(|e| e.as_str()).unwrap_or("");
+                            let ms = v.get(RIGHT_MUTATE_SELF_SHORT).and_then(|e| e.as_bool()).unwrap_or(false);
+                            let ma = v.get(RIGHT_MUTATE_ALL_SHORT).and_then(|e| e.as_bool()).unwrap_or(false);
+                            format!(
+                                "{}:{}:{}",
+                                ENTITIES.iter().position(|e| *e == ent).map(|i| i.to_string()).unwrap_or("?".into()),
+                                (ms || ma) as u8,
+                                ma as u8
+                            )
+                        }
+                        None => "!".to_string(),
+                    };
+                    format!("{}:{}:{}", body, x.node.mdate, self.key_index(&x.node.verifying_key))
+                })
+                .collect();
+            rights.sort();
+            let us = users(self, &a.user_nodes);
+            let uas = users(self, &a.user_admin_nodes);
+            let author = self.key_index(&a.node.verifying_key);
+            groups.push(format!("{}={}:{}:U[{}]:R[{}]:UA[{}]", name, author, a.node.mdate, us, rights.join(","), uas));
+        }
+        groups.sort();
+        let author = self.key_index(&node.node.verifying_key);
+        format!("S {}:{} A[{}] G[{}]", author, node.node.mdate, admins, groups.join(";"))
     }
 
     pub fn op_robs(&mut self, kv: &Kv) -> String {
